@@ -2021,6 +2021,13 @@ impl XmlDocumentTypeDeclaration {
                                     match value {
                                         XmlEntityValue::Character(c, 10) => char_from_char10(c)?,
                                         XmlEntityValue::Character(c, _) => char_from_char16(c)?,
+                                        // WFC: PEs in Internal Subset
+                                        XmlEntityValue::Parameter(v) => {
+                                            return Err(error::Error::InvalidData(format!(
+                                                "%{};",
+                                                v
+                                            )));
+                                        }
                                         _ => continue,
                                     };
                                 }
